@@ -122,7 +122,9 @@ def scan_forbidden_all():
 
 
 def gen_main():
-    """CTV/Driver/Main.lean dispatches to every CTV/Driver/Cxx.lean present."""
+    """CTV/Driver/Main.lean dispatches to every CTV/Driver/Cxx.lean present; CTV/Driver/MainCxx.lean is the root of the
+    per-property executable ctvmodel_cxx (a check builds and runs only its own: a tie broken for one property must not
+    stop another property's model from building)."""
     ddir = os.path.join(LEAN, "CTV", "Driver")
     mods = sorted(f[:-5] for f in os.listdir(ddir) if re.fullmatch(r"C\d+\.lean", f))
     s = "-- GENERATED by driver/verif.py from the list of CTV/Driver/Cxx.lean files.\n"
@@ -131,9 +133,46 @@ def gen_main():
     for m in mods:
         s += f"  | \"{m}\" :: rest => CTV.Driver.{m}.run rest\n"
     s += "  | _ => do IO.eprintln \"usage: ctvmodel <property> [args]\"; return 64\n"
-    p = os.path.join(ddir, "Main.lean")
-    if not os.path.exists(p) or open(p).read() != s:
-        open(p, "w").write(s)
+    files = {"Main.lean": s}
+    for m in mods:
+        files[f"Main{m}.lean"] = (f"-- GENERATED by driver/verif.py: root of the executable ctvmodel_{m.lower()}.\nimport CTV.Driver.{m}\n\n"
+                                  f"def main (args : List String) : IO UInt32 := CTV.Driver.{m}.run args\n")
+    for name, txt in files.items():
+        p = os.path.join(ddir, name)
+        if not os.path.exists(p) or open(p).read() != txt:
+            open(p, "w").write(txt)
+
+
+def import_closure(mods):
+    """Lean modules (CTV.*) transitively imported by the given modules"""
+    seen, todo = set(), list(mods)
+    while todo:
+        m = todo.pop()
+        if m in seen or not m.startswith("CTV."):
+            continue
+        seen.add(m)
+        p = os.path.join(LEAN, *m.split(".")) + ".lean"
+        try:
+            for l in open(p):
+                mm = re.match(r"\s*import\s+(\S+)", l)
+                if mm:
+                    todo.append(mm.group(1))
+        except OSError:
+            pass
+    return seen
+
+
+def extract_fail_modules():
+    """unit name -> generated module, read from the `-- EXTRACT-FAIL <unit>: …` markers the extractor leaves in CTV/Gen"""
+    res = {}
+    gdir = os.path.join(LEAN, "CTV", "Gen")
+    for f in os.listdir(gdir):
+        if f.endswith(".lean"):
+            for l in open(os.path.join(gdir, f), errors="replace"):
+                mm = re.match(r"-- EXTRACT-FAIL (\S+?):", l)
+                if mm:
+                    res[mm.group(1)] = "CTV.Gen." + f[:-5]
+    return res
 
 
 def lake(targets, timeout=3000):
@@ -265,9 +304,9 @@ def parse_trace(path):
 
 
 def run_model(pid, tlines, args=(), exe=None):
-    exe = exe or os.path.join(LEAN, ".lake", "build", "bin", "ctvmodel")
+    exe = exe or os.path.join(LEAN, ".lake", "build", "bin", f"ctvmodel_{pid.lower()}")
     inp = "\n".join(l.split(" => ")[0] for l in tlines) + ("\n" if tlines else "")
-    p = subprocess.run([exe, pid] + list(args), input=inp, stdout=subprocess.PIPE, stderr=subprocess.PIPE, text=True, errors="replace")
+    p = subprocess.run([exe] + list(args), input=inp, stdout=subprocess.PIPE, stderr=subprocess.PIPE, text=True, errors="replace")
     return p.returncode, p.stdout.splitlines(), p.stderr
 
 
@@ -314,13 +353,22 @@ def main():
     # 1+2: extract and proofs (serialised: the Lean build directory is shared)
     with Lock("lean"):
         xf = run_extract()
-        for l in xf:
-            problems.append(("TIE(extract)", l))
         gen_main()
+        # only the regenerated units this property's theorems and model depend on count (import closure of its modules)
+        closure = import_closure(list(cfg.PROPS) + [f"CTV.Driver.{pid}"])
+        fmods = extract_fail_modules()
+        for l in xf:
+            unit = (l.split() + ["", ""])[1]
+            mod = fmods.get(unit)
+            if mod is None or mod in closure:
+                problems.append(("TIE(extract)", l))
+            else:
+                notes.append(f"extraction failure outside this property's modules ignored: {l[:160]}")
         names, nex, bad = prop_theorems(pid, cfg.PROPS)
         for b in bad + scan_forbidden_all():
             problems.append(("PROOF(forbidden)", b))
-        rc, out, dt_build = lake(cfg.PROPS + ["ctvmodel"])
+        exe_name = f"ctvmodel_{pid.lower()}"
+        rc, out, dt_build = lake(cfg.PROPS + [exe_name])
         build_ok = rc == 0
         if not build_ok:
             # try the model driver alone so that the search can still run
@@ -328,7 +376,7 @@ def main():
                 problems.append(("PROOF", d))
             if not failing_decls(out, cfg.PROPS):
                 problems.append(("PROOF", "lake build failed: " + " | ".join(lean_errors(out)[:5])))
-            rc2, out2, _ = lake(["ctvmodel"])
+            rc2, out2, _ = lake([exe_name])
             model_ok = rc2 == 0
             if not model_ok:
                 problems.append(("TIE(model-build)", " | ".join(lean_errors(out2)[:5])))
@@ -339,7 +387,7 @@ def main():
         model_exe = os.path.join(BUILD, f"ctvmodel-{os.getpid()}")
         if model_ok:
             import shutil
-            shutil.copy2(os.path.join(LEAN, ".lake", "build", "bin", "ctvmodel"), model_exe)
+            shutil.copy2(os.path.join(LEAN, ".lake", "build", "bin", exe_name), model_exe)
         axioms = {}
         if build_ok:
             rc, aout, axioms, badax, missing = run_audit(pid, names)
